@@ -586,11 +586,12 @@ where
             let params = params.clone();
             ArcMemo::new({
                 move |_| {
-                    parent_params
-                        .iter()
-                        .flat_map(|params| params.get().into_iter())
-                        .chain(params.get())
-                        .collect::<ParamsMap>()
+                    merge_decoded_params(
+                        parent_params
+                            .iter()
+                            .map(|params| params.get())
+                            .chain(iter::once(params.get())),
+                    )
                 }
             })
         };
@@ -765,11 +766,12 @@ where
                         let params = current.params.clone();
                         ArcMemo::new({
                             move |_| {
-                                parent_params
-                                    .iter()
-                                    .flat_map(|params| params.get().into_iter())
-                                    .chain(params.get())
-                                    .collect::<ParamsMap>()
+                                merge_decoded_params(
+                                    parent_params
+                                        .iter()
+                                        .map(|params| params.get())
+                                        .chain(iter::once(params.get())),
+                                )
                             }
                         })
                     };
@@ -905,6 +907,19 @@ where
     fn elements(&self) -> Vec<tachys::renderer::types::Element> {
         self.view.elements()
     }
+}
+
+/// Merges route parameter maps whose values have already been percent-decoded.
+///
+/// Collecting them through [`ParamsMap::insert`] would decode every value a second time.
+fn merge_decoded_params(
+    maps: impl IntoIterator<Item = ParamsMap>,
+) -> ParamsMap {
+    let mut all = ParamsMap::new();
+    for (key, value) in maps.into_iter().flatten() {
+        all.insert_decoded(key, value);
+    }
+    all
 }
 
 /// Displays the child route nested in a parent route, allowing you to control exactly where
